@@ -279,27 +279,24 @@ class Build(object):
         shutil.copy(os.path.join(SUBJECT, "numpy_stub.h"), os.path.join(self.dir, "numpy", "arrayobject.h"))
         with open(os.path.join(self.dir, self.lib + ".yaml"), "w") as fp:
             fp.write(self.yaml_text)
-        code = ("import sys; sys.path.insert(0, %r); import shroud.main; "
-                "sys.argv=['shroud','--outdir',%r,'--logdir',%r,%r]; shroud.main.main()"
-                % (REPO, self.dir, self.dir, os.path.join(self.dir, self.lib + ".yaml")))
-        p = self.sh([PY, "-c", code], timeout=300)
-        if p.returncode != 0:
-            self.errors["generate"] = (p.stdout + p.stderr)[-1500:]
-            return False
+        code = ("import sys; sys.path.insert(0, %r); import shroud.main\n" % REPO)
         if self.companion:
+            # the way a build script wraps two libraries: one Python process, the companion first
             two = os.path.join(self.dir, "two")
             os.makedirs(two, exist_ok=True)
             shutil.copy(os.path.join(SUBJECT, "simlib.hpp"), two)
             shutil.copy(os.path.join(SUBJECT, "simhook.h"), two)
             with open(os.path.join(two, "simtwo.yaml"), "w") as fp:
                 fp.write(COMPANION_YAML)
-            code = ("import sys; sys.path.insert(0, %r); import shroud.main; "
-                    "sys.argv=['shroud','--outdir',%r,'--logdir',%r,%r]; shroud.main.main()"
-                    % (REPO, two, two, os.path.join(two, "simtwo.yaml")))
-            p = self.sh([PY, "-c", code], timeout=300)
-            if p.returncode != 0:
-                self.errors["generate companion"] = (p.stdout + p.stderr)[-1500:]
-                return False
+            code += ("sys.argv=['shroud','--outdir',%r,'--logdir',%r,%r]\n"
+                     "try:\n    shroud.main.main()\nexcept SystemExit as e:\n    assert e.code in (None, 0), e.code\n"
+                     % (two, two, os.path.join(two, "simtwo.yaml")))
+        code += ("sys.argv=['shroud','--outdir',%r,'--logdir',%r,%r]; shroud.main.main()\n"
+                 % (self.dir, self.dir, os.path.join(self.dir, self.lib + ".yaml")))
+        p = self.sh([PY, "-c", code], timeout=300)
+        if p.returncode != 0:
+            self.errors["generate"] = (p.stdout + p.stderr)[-1500:]
+            return False
         if self.have is not None:
             for name, lang, drv in (("drv_c.c", "c", "c"), ("drv_f.f90", "f", "f")):
                 with open(os.path.join(self.dir, name)) as fp:
@@ -1090,6 +1087,11 @@ class C06Engine(object):
             base_ok = self.builds.get(0) and "generate" not in self.builds[0].errors
             if base_ok and any("generate" in b.errors for b in self.builds.values()):
                 never.append("variant generation")
+            base = self.builds.get(0)
+            if base is not None:
+                # the unmodified subject must build for every driver: anything else would let the
+                # run pass on a fraction of the workload
+                never += ["%s of the base variant" % d for d in base.drivers if not base.ok.get(d) and d in ("f", "c", "py")]
             if nbuilt == 0 or st["sequences"] == 0 or never:
                 print("HARNESS-ERROR: driver(s) %s could not be built for any variant (generated code does not "
                       "compile?): %s" % (never, json.dumps(st["build_errors"])[:1500]))
